@@ -109,6 +109,25 @@ Fixpoint commits_cover (g : cfg) (evs : list mev) (snaps : list snap) : bool :=
    object and the version objects of the rolled-back flush, so later in the transaction (a) an
    error is raised, (b) rows are stamped with the id of the rolled-back transaction record, (c) the
    stale operations make the transaction-changes plugin record a name again *)
+(* what is left of a rolled-back savepoint must not distort the versions written later in the transaction either:
+   at every commit the newest version of every live versioned entity holds the live row (C01's clause), and at every
+   snapshot the validity tables satisfy the chain (C03's clause) *)
+Definition newest_is_live (g : cfg) (sn : snap) : bool :=
+  forallb (fun l =>
+     let cc := cls_of g (l_cls l) in
+     negb (k_versioned cc) ||
+     match newest_row (sn_vt sn) (k_tab cc :: l_key l) with
+     | Some r => negb (vop r =? OP_DEL) && list_eqb val_eqb (vdat r) (dat_of cc (l_vals l))
+     | None => false
+     end) (sn_live sn).
+
+Fixpoint commits_content (g : cfg) (evs : list mev) (snaps : list snap) : bool :=
+  match evs, snaps with
+  | e :: evs', sn :: snaps' =>
+      (match e with MCore Commit => newest_is_live g sn | _ => true end) && commits_content g evs' snaps'
+  | _, _ => true
+  end.
+
 Definition C06_prop_sp (c : C06_case) : bool :=
   match c with
   | C06_S g evs snaps exc later_error =>
@@ -130,5 +149,6 @@ Definition C06_prop (c : C06_case) : bool :=
       forallb no_dangling snaps &&
       (* what a rolled-back savepoint leaves behind must not distort the record of the transaction:
          at every commit the recorded entity names are the classes with a version of that transaction *)
-      commits_ok g evs snaps && commits_walk snap0 evs snaps
+      commits_ok g evs snaps && commits_walk snap0 evs snaps &&
+      commits_content g evs snaps && forallb (fun sn => chain_okb (validity_rows g (sn_vt sn))) snaps
   end.
